@@ -42,7 +42,7 @@ CHECKS.append(check(
     "deterministic simulation: seeded goroutine scheduler over rewritten channel operations + reference model (in-memory reader) + in-simulation race detection",
     "DESIGN.md section 3 A, section 5 C14, Appendices A and G"))
 
-CSIM_NOTE = ("Sampling of (stream, schedule) pairs. In C03, C05 and C07 one run in three to six drives an IMAGE decoder instead (bmp, gif, jpeg, netpbm, nie, png, qoi, targa, wbmp, webp, etc2, thumbhash through the generic wuffs_base__image_decoder interface: decode_image_config, then decode_frame_config / decode_frame for up to 6 frames into a BGRA pixel buffer) over the repository's image files incl. test/data/artificial-*, or PNG/GIF written by Go's encoders (C07: decoded pixels must equal the original), with the file delivered by a drawn schedule (all at once, fixed or drawn pieces, one split point, late close, empty wake-ups, consumed bytes compacted away or kept).  Trusts: clang-14's ASan+UBSan (minus pointer-overflow, see DESIGN.md appendix D) to surface memory errors; the simulated caller obeys exactly the "
+CSIM_NOTE = ("Sampling of (stream, schedule) pairs. In C03, C05 and C07 (and, in their own modes described with them, C08 and C09) one run in three to six drives an IMAGE decoder instead (bmp, gif, jpeg, netpbm, nie, png, qoi, targa, wbmp, webp, etc2, thumbhash through the generic wuffs_base__image_decoder interface: decode_image_config, then decode_frame_config / decode_frame for up to 6 frames into a BGRA pixel buffer) over the repository's image files incl. test/data/artificial-*, or PNG/GIF written by Go's encoders (C07: decoded pixels must equal the original), with the file delivered by a drawn schedule (all at once, fixed or drawn pieces, one split point, late close, empty wake-ups, consumed bytes compacted away or kept).  Trusts: clang-14's ASan+UBSan (minus two sub-checks, below) to surface memory errors; the simulated caller obeys exactly the "
              "contracts the repository's own callers obey (example/zcat, example/mzcat). Covers the eight io_transformer decoders (deflate, zlib, gzip, lzw, bzip2, lzma, xz, lzip), the twelve image decoders and (C07) the hashers; token decoders (json, cbor), tell_me_more / metadata, restart_frame and quirks are not driven. Repository streams come from test/data and test/data/artificial-* (hand-made edge cases). UBSan's pointer-overflow and nonnull-attribute sub-checks are off (NULL+0 and memset(NULL,0,0) on empty slices touch no memory and are none of the defect classes C03 lists; ASan still traps any real NULL access): DESIGN.md appendix D. Runs on this VM's x86-64 SIMD paths only. If the working tree's compiler does not build, or clang rejects its output, the check exits 2 (no verdict).")
 
 CHECKS.append(check(
